@@ -5,6 +5,7 @@ CONSTANTS
  Feed <- MCFeed
  Careful = FALSE
  RejectAtRefresh = "recorded"
+ ListingOrder <- MCFree
 INVARIANT TypeOK TodoHasCandidate OutputWasFetched PublishedInStore RejectsApart OnlyRejectsFlagged
 INVARIANT OnlyActionablePublished DirsExist OnlyOffered Idempotent
 PROPERTY Flow
